@@ -19,7 +19,7 @@ def targetPrior (st : State) : Target → Option Bytes
 def specEncodeInto (o : Opts) (prior : Bytes) (v : Val) : Option Bytes :=
   match render v with
   | none => none
-  | some t => some (if o.escapeHTML then htmlEscape (prior ++ t) else prior ++ t)
+  | some t => some (prior ++ (if o.escapeHTML then htmlEscape t else t))
 
 theorem resolveTarget_ok {st : State} (h : Inv st) (t : Target) :
     (resolveTarget st t = none ∧ targetPrior st t = none) ∨
@@ -54,10 +54,9 @@ theorem opEncodeInto_ok {c : Ctx} (hc : c.OK) {st : State} (h : Inv st) (o : Opt
   · have hwfb := hi0.wf _ _ hb
     have hl : (st0.bytesOf id).length = b.len := by
       rw [bytesOf_cell hb, List.length_take]; omega
-    obtain ⟨sb, hfs, hx⟩ := encodeToks_ok hc.env (strEnc_ok hc.env hc.nat impl) (compile v)
-      { mem := b.mem, len := b.len, gen := 0 } hwfb
+    obtain ⟨sb, hfs, hx⟩ := encodeInto_ok hc.env hc.nat impl o { mem := b.mem, len := b.len, gen := 0 } hwfb v
     obtain ⟨st1, id1, hrun, hr⟩ := runOn_ok hi0 hb (lent := some (st0.bytesOf id).length)
-      (Or.inr ⟨hown, by rw [hl]⟩) hfs hx
+      (f := (encodeInto c.env c.nat impl o · v)) (Or.inr ⟨hown, by rw [hl]⟩) hfs hx
     have hcell := hr.cell
     have hgive : ∀ n, n ≤ sb.len → Given st1 (st1.give id1 0 n) id1 0 n := by
       intro n hn
@@ -67,47 +66,28 @@ theorem opEncodeInto_ok {c : Ctx} (hc : c.OK) {st : State} (h : Inv st) (o : Opt
         simp only [e, if_true]
         exact ⟨hown, by rw [hr.inputs]; exact hnin⟩
       · left; simp only [e, if_false]
-    have hbytes1 : st1.bytesOf id1 = b.mem.take b.len ++ renderToks (compile v) := by
+    have hbytes1 : st1.bytesOf id1 = b.mem.take b.len ++ finishText o (compile v) := by
       rw [hr.bytesOf]; exact hx.bytes
     have hlen1 : (st1.bytesOf id1).length = sb.len := by
       rw [hr.bytesOf, List.length_take]; have := hx.wf; unfold SBuf.WF at this; omega
+    have hg := hgive (st1.bytesOf id1).length (by omega)
+    obtain ⟨r, hrr, _⟩ := hg.results
     rcases Bool.eq_false_or_eq_true (hasBad (compile v)) with hbad | hbad
     · rw [hbad] at hrun
-      have hg := hgive (st1.bytesOf id1).length (by omega)
-      obtain ⟨r, hrr, _⟩ := hg.results
       refine ⟨st1.give id1 0 (st1.bytesOf id1).length, .err, by unfold opEncodeInto; simp only [hres, hrun],
         ⟨hg.inv, [r], by rw [hrr, hr.results, hr0]; rfl⟩, ?_⟩
       intro prior _
       simp only [specEncodeInto, render_none hbad, Ret.matches]
     · rw [hbad] at hrun
-      rcases Bool.eq_false_or_eq_true o.escapeHTML with ho | ho
-      · have hwf0 : SBuf.WF { mem := [], len := 0, gen := 0 } := by simp [SBuf.WF]
-        obtain ⟨sb2, e2, x2⟩ := htmlEscapeLoop_ok hc.env hc.nat.html { mem := [], len := 0, gen := 0 } hwf0
-          (st1.bytesOf id1)
-        have hi2 := alloc_inv hr.inv .internal sb2.mem sb2.len x2.wf
-        have hc2 := alloc_heap_new st1 .internal sb2.mem sb2.len
-        have hg := give_ok hi2 hc2 (Or.inl rfl) (off := 0) (n := sb2.len) (by simp)
-        obtain ⟨r, hrr, _⟩ := hg.results
-        refine ⟨(st1.alloc .internal sb2.mem sb2.len).1.give (st1.alloc .internal sb2.mem sb2.len).2 0 sb2.len,
-          .bytes (st1.alloc .internal sb2.mem sb2.len).2 (sb2.mem.take sb2.len),
-          by unfold opEncodeInto; simp only [hres, hrun, ho, if_true, e2],
-          ⟨hg.inv, [r], by rw [hrr]; simp only [State.alloc]; rw [hr.results, hr0]; rfl⟩, ?_⟩
-        intro prior hpr
-        rw [hp] at hpr; cases hpr
-        simp only [specEncodeInto, render_some hbad, ho, if_true, Ret.matches]
-        refine ⟨(st1.alloc .internal sb2.mem sb2.len).2, ?_⟩
-        have := x2.bytes
-        simp only [SBuf.bytes, List.take_zero, List.nil_append] at this
-        rw [this, hbytes1]
-      · have hg := hgive (st1.bytesOf id1).length (by omega)
-        obtain ⟨r, hrr, _⟩ := hg.results
-        refine ⟨st1.give id1 0 (st1.bytesOf id1).length, .bytes id1 (st1.bytesOf id1),
-          by unfold opEncodeInto; simp only [hres, hrun, ho, Bool.false_eq_true, if_false],
-          ⟨hg.inv, [r], by rw [hrr, hr.results, hr0]; rfl⟩, ?_⟩
-        intro prior hpr
-        rw [hp] at hpr; cases hpr
-        simp only [specEncodeInto, render_some hbad, ho, Bool.false_eq_true, if_false, Ret.matches]
-        exact ⟨id1, by rw [hbytes1]⟩
+      refine ⟨st1.give id1 0 (st1.bytesOf id1).length, .bytes id1 (st1.bytesOf id1),
+        by unfold opEncodeInto; simp only [hres, hrun],
+        ⟨hg.inv, [r], by rw [hrr, hr.results, hr0]; rfl⟩, ?_⟩
+      intro prior hpr
+      rw [hp] at hpr; cases hpr
+      simp only [specEncodeInto, render_some hbad, Ret.matches]
+      refine ⟨id1, ?_⟩
+      rw [hbytes1]
+      rcases Bool.eq_false_or_eq_true o.escapeHTML with ho | ho <;> simp [finishText, hbad, ho]
 
 /-! ### decoding, the caller's writes, gc -/
 
